@@ -125,6 +125,9 @@ class _CGMYLevyMeasure(LevyMeasure):
         return 0
 
     def integrate(self, a: float, b: float) -> float:
+        if a < b and a <= 0 <= b and self.parameters.y >= 0:
+            return np.inf  # infinite activity: the mass of any neighbourhood of zero is infinite
+
         if a < 0 < b and self.parameters.y < 0:
             # finite activity: split at zero (the half-line formulas below expect one side of zero)
             return self.integrate(a, 0.0) + self.integrate(0.0, b)
